@@ -110,7 +110,7 @@ func failureProblems(res *run.Result, exp *ref.Result, f *ref.Task, failProc str
 func c09(args []string) {
 	c := chk.New("C09", "fault_enumeration", args)
 	c.Build(false)
-	c.Rule("generated graphs x every chosen task as the failing one x failure kind {exit non-zero before/mid/after writing, killed by SIGKILL / SIGSEGV, the task's shell killed by SIGKILL / SIGTERM after writing, declared output not produced, output written under another name; Go-function variants; task cannot be formed: empty parameter value, missing tag, invalid output path (space, colon, empty, letters / digits outside ASCII)} while sibling tasks are running; oracle = exit status != 0, no completion report, no final path of the failing task exists, no start event of any transitive dependant; plus output paths that cannot be finalized: an absolute output area on another file system (symlink to /dev/shm), where the commands succeed but the rename out of the temp directory fails - the program must exit non-zero, must not report completion, and no downstream task may run; twelve tasks failing at the same moment with long error reports (each of them is judged); Go-function tasks also fail by panicking, also those that write through task.OutIP(port).Write() to a port declared through SetOut only, and Go functions that run a failing tool through the library's ExecCmd helper; a command line that is a list whose middle element fails after the outputs were written, or a multi-line script whose last line returns non-zero; a producer with only streamed outputs failing 0.5 s after it closed its streams. distinct_nontrivial = distinct (graph shape, failing task, failure kind) in which the failing command really ran (or, for unformable tasks, the workflow was started) and >= 1 sibling task executed")
+	c.Rule("generated graphs x every chosen task as the failing one x failure kind {exit non-zero before/mid/after writing, killed by SIGKILL / SIGSEGV, the task's shell killed by SIGKILL / SIGTERM after writing, declared output not produced, output written under another name; Go-function variants; task cannot be formed: empty parameter value, missing tag, invalid output path (space, colon, empty, letters / digits outside ASCII)} while sibling tasks are running; oracle = exit status != 0, no completion report, no final path of the failing task exists, no start event of any transitive dependant; plus output paths that cannot be finalized: an absolute output area on another file system (symlink to /dev/shm), where the commands succeed but the rename out of the temp directory fails - the program must exit non-zero, must not report completion, and no downstream task may run; twelve tasks failing at the same moment with long error reports (each of them is judged); the failing task being the surplus item of unequal streams (IPSelectorSync inputs of different length; fewer parameter values than files); Go-function tasks also fail by panicking, also those that write through task.OutIP(port).Write() to a port declared through SetOut only, and Go functions that run a failing tool through the library's ExecCmd helper; a command line that is a list whose middle element fails after the outputs were written, or a multi-line script whose last line returns non-zero; a producer with only streamed outputs failing 0.5 s after it closed its streams. distinct_nontrivial = distinct (graph shape, failing task, failure kind) in which the failing command really ran (or, for unformable tasks, the workflow was started) and >= 1 sibling task executed")
 	c.Assume("siblings that were already running may finalize their own outputs (os.Exit does not wait) - legal", "orphaned sibling commands are killed by the runner after the workflow process has exited")
 	rng := c.Rand("c09")
 	type job struct {
@@ -371,6 +371,35 @@ func c09(args []string) {
 			}
 			mode := []string{"exit-after-write", "panic-after-write"}[(k/2)%2]
 			jobs = append(jobs, &job{s: s, exp: exp, f: f, mode: mode, bh: vproto.Behaviours{f.Key: {"fail": mode}}, cfg: Cfg{Buf: []int{1, 128}[k%2], Procs: []int{2, 4}[k%2], NoHooks: k%4 >= 2}, idx: -1})
+		}
+	}
+	// the failing task is the surplus one: (a) two upstream processes feed an IPSelectorSync, one of them has one task
+	// more, and that task fails late; (b) a process has an in-port and a parameter port fed with fewer values than files,
+	// and the upstream task that makes the surplus file fails late. Whoever stops waiting for the surplus item lets the
+	// program finish before the failure is seen.
+	for variant := 0; variant < 2; variant++ {
+		in, o1 := []spec.PortDecl{{Name: "in"}}, []spec.PortDecl{{Name: "out"}}
+		s := &spec.Spec{Name: []string{"surplusselector", "surplusparam"}[variant], MaxTasks: 4, Sources: map[string]string{"a0.txt": "a0\n", "a1.txt": "a1\n", "b0.txt": "b0\n", "b1.txt": "b1\n", "b2.txt": "b2\n"}}
+		if variant == 0 {
+			s.Procs = append(s.Procs, &spec.Proc{Name: "sa", Kind: spec.KFileSource, Files: []string{"a0.txt", "a1.txt"}}, &spec.Proc{Name: "sb", Kind: spec.KFileSource, Files: []string{"b0.txt", "b1.txt", "b2.txt"}},
+				&spec.Proc{Name: "A", Kind: spec.KCmd, Cmd: spec.BuildCmd("A", in, o1, nil, nil, nil)}, &spec.Proc{Name: "B", Kind: spec.KCmd, Cmd: spec.BuildCmd("B", in, o1, nil, nil, nil)},
+				&spec.Proc{Name: "SEL", Kind: spec.KSelector, Ports: []string{"a", "b"}, Pred: "all"},
+				&spec.Proc{Name: "J", Kind: spec.KCmd, Cmd: spec.BuildCmd("J", []spec.PortDecl{{Name: "a"}, {Name: "b"}}, o1, nil, nil, nil)})
+			s.Conns = append(s.Conns, &spec.Conn{From: "sa.out", To: "A.in"}, &spec.Conn{From: "sb.out", To: "B.in"}, &spec.Conn{From: "A.out", To: "SEL.a"}, &spec.Conn{From: "B.out", To: "SEL.b"},
+				&spec.Conn{From: "SEL.a", To: "J.a"}, &spec.Conn{From: "SEL.b", To: "J.b"})
+		} else {
+			s.Procs = append(s.Procs, &spec.Proc{Name: "sb", Kind: spec.KFileSource, Files: []string{"b0.txt", "b1.txt", "b2.txt"}},
+				&spec.Proc{Name: "B", Kind: spec.KCmd, Cmd: spec.BuildCmd("B", in, o1, nil, nil, nil)},
+				&spec.Proc{Name: "J", Kind: spec.KCmd, Cmd: spec.BuildCmd("J", in, o1, []string{"k"}, nil, nil), Feeds: []*spec.Feed{{Port: "k", How: "str", Values: []string{"k0", "k1"}}}})
+			s.Conns = append(s.Conns, &spec.Conn{From: "sb.out", To: "B.in"}, &spec.Conn{From: "B.out", To: "J.in"})
+		}
+		// the reference is taken from the equal-length part; the surplus task is judged by hand: f = the third task of B
+		key := vproto.TaskKey("B", []vproto.KV{{K: "in", V: "b2.txt"}}, nil, nil)
+		f := &ref.Task{Proc: "B", Key: key, Outs: map[string]string{"out": "b2.txt.b.out"}, Streams: map[string]bool{}, In: map[string]*ref.Item{}}
+		exp := &ref.Result{Tasks: []*ref.Task{f}, ByProc: map[string][]*ref.Task{"B": {f}}}
+		for k := 0; k < c.Pick(3, 9); k++ {
+			mode := []string{"exit-after-write", "exit-mid-write", "sigkill-self"}[k%3]
+			jobs = append(jobs, &job{s: s, exp: exp, f: f, mode: mode, bh: vproto.Behaviours{key: {"fail": mode, "sleep": "600"}}, cfg: Cfg{Buf: []int{128, 1}[k%2], Procs: 4, NoHooks: k%2 == 1}, idx: -1})
 		}
 	}
 	// a Go function that runs its tool through the library's ExecCmd helper; the tool fails in the middle of / after writing
